@@ -10,7 +10,7 @@ import (
 
 // HOp is one step of a scripted handler.
 type HOp struct {
-	Op   string `json:"op"` // set | add | del | status | write | flush | read | readall | close
+	Op   string `json:"op"` // set | add | del | status | write | flush | read | readall | close | abort
 	K    string `json:"k,omitempty"`
 	V    string `json:"v,omitempty"`
 	Code int    `json:"code,omitempty"`
@@ -25,6 +25,9 @@ type HOp struct {
 type Script struct {
 	Ops []HOp `json:"ops"`
 }
+
+// HandlerAbort is the panic value of a scripted handler crash.
+type HandlerAbort struct{}
 
 // HandlerRec is what the harness observes about one handler invocation.
 type HandlerRec struct {
@@ -107,6 +110,10 @@ func (s Script) Serve(w http.ResponseWriter, r *http.Request, log *simfw.Log, re
 			if r.Body != nil {
 				r.Body.Close()
 			}
+		case "abort":
+			// the handler crashes mid-response (net/http would recover it per connection)
+			log.Add("handler", "abort", "", "panic")
+			panic(HandlerAbort{})
 		}
 	}
 	rec.Returned++
@@ -142,6 +149,11 @@ func (s Script) ShapeClass() string {
 				firstKind = "flush"
 			}
 			flushes++
+		}
+	}
+	for _, op := range s.Ops {
+		if op.Op == "abort" {
+			return "aborted"
 		}
 	}
 	switch {
